@@ -21,10 +21,21 @@ ASSUMPTIONS = ["refsem inclusion algebra; AddrGroup in AddrGroup and 'in' on a n
                "TypeError) are outside the statement's observables and not asserted"]
 
 
-def _mk_address(a: dict, platform: str):
+def slash_spelling(a: dict, how):
+    """'A.B.C.D/M.M.M.M' - the network written with a slash and a dotted subnet mask or host mask, with or without
+    address bits below the mask (accepted by the library like A.B.C.D/LEN). None if the address has no such form."""
+    if not how or a["k"] not in ("prefix", "wild") or not R.is_contiguous(a["w"]) or a["w"] in (0, R.ALL1):
+        return None
+    kind, hostbits = how
+    base = (a["b"] & ~a["w"] & R.ALL1) | (hostbits & a["w"])
+    mask = a["w"] if kind == "hostmask" else (~a["w"] & R.ALL1)
+    return f"{R.int2ip(base)}/{R.int2ip(mask)}"
+
+
+def _mk_address(a: dict, platform: str, slash=None):
     from cisco_acl import Address
 
-    ad = Address(G.render_addr(a, platform), platform=platform)
+    ad = Address(slash_spelling(a, slash) or G.render_addr(a, platform), platform=platform)
     if a["k"] == "group":
         ad.items = A.member_lines(a)
     return ad
@@ -47,10 +58,16 @@ def judge_addr(case) -> Verdict:
         raise Invalid()
     G.validate_addr(a)
     G.validate_addr(b)
-    top, bot = _mk_address(a, pa), _mk_address(b, pb)
+    sl = case.get("slash") or [None, None]
+    for x in sl:
+        if x is not None and not (isinstance(x, list) and len(x) == 2 and x[0] in ("netmask", "hostmask") and isinstance(x[1], int)):
+            raise Invalid()
+    top, bot = _mk_address(a, pa, sl[0]), _mk_address(b, pb, sl[1])
     want = R.pairs_subset(_pairs(b), _pairs(a))
     grouped = a["k"] == "group" or b["k"] == "group"
     v = Verdict()
+    if any(slash_spelling(x, y) for x, y in ((a, sl[0]), (b, sl[1]))):
+        v.label("slash-and-dotted-mask-spelling")
     got1 = bot.subnet_of(top)
     got2 = functions.subnet_of(top=top, bottom=bot)
     for name, got in (("Address.subnet_of", got1), ("functions.subnet_of", got2)):
@@ -190,6 +207,15 @@ def typo_mask_pair(draw):
 
 @st.composite
 def addr_pair_st(draw, tier):
+    case = draw(_addr_pair_st(tier))
+    if draw(st.sampled_from(range(5))) == 4:
+        case["slash"] = [draw(st.sampled_from([None, ["netmask", 0], ["hostmask", 0], ["netmask", draw(st.integers(1, R.ALL1))],
+                                               ["hostmask", draw(st.integers(1, R.ALL1))]])) for _ in range(2)]
+    return case
+
+
+@st.composite
+def _addr_pair_st(draw, tier):
     mode = draw(st.sampled_from(range(10)))
     if mode == 5 and draw(st.booleans()):
         a, b = draw(group_under_wild())
